@@ -227,3 +227,33 @@ func probeNull() {
 		fmt.Println(line)
 	}
 }
+
+// probeDeployReplace (C08_PROBE=deployreplace): a diff that deploys and replaces one contract.
+func probeDeployReplace() {
+	w, err := newWorld(lib.NewRNG(1), false, lib.DefaultGenOptions())
+	if err != nil {
+		panic(err)
+	}
+	a := w.g.Addr(4)
+	d := emptyDiff()
+	d.DeployedContracts[a] = lib.F(0xc0)
+	d.ReplacedClasses[a] = lib.F(0xc1)
+	fmt.Println("block 0 (deploy c0 + replace c1):", w.nextWith(d))
+	fmt.Println("block 1 (empty):", w.nextWith(emptyDiff()))
+	d2 := emptyDiff()
+	d2.ReplacedClasses[a] = lib.F(0xc2)
+	fmt.Println("block 2 (replace c2):", w.nextWith(d2))
+	for _, id := range []any{map[string]any{"block_number": 0}, map[string]any{"block_number": 1}, map[string]any{"block_number": 2}, "latest"} {
+		line := fmt.Sprint(id, ":")
+		for ni, n := range w.nodes {
+			r := n.call("v10", "starknet_getClassHashAt", []any{id, a.String()})
+			line += fmt.Sprintf(" %s=%s(code %d)", backendName[ni], r.Result, r.Code)
+		}
+		fmt.Println(line)
+	}
+	fmt.Println("revert:", w.revert(), w.revert())
+	for ni, n := range w.nodes {
+		r := n.call("v10", "starknet_getClassHashAt", []any{"latest", a.String()})
+		fmt.Printf(" after reverting to block 0, latest %s=%s(code %d)\n", backendName[ni], r.Result, r.Code)
+	}
+}
